@@ -8,6 +8,28 @@ ROOT = os.path.dirname(os.path.dirname(os.path.abspath(__file__)))
 
 # id -> (category, technique, level text, level note, design ref)
 CHECKS = {
+    'C06': ('exploration',
+            'grammar-based + mutational + raw-byte fuzzing with Hypothesis at '
+            'parser and wire level, generated messages read back with every '
+            'FETCH attribute / SEARCH key, CPU-budget hang detector, failures '
+            'bucketed by (exception type, innermost pymap frame)',
+            'Command lines from a hole-filled grammar of every IMAP command, '
+            'mutations of valid lines, raw bytes and near-64KiB lines are fed '
+            '(a) to Commands.parse exactly as the connection does and (b) '
+            'through a real in-process connection in the not-authenticated, '
+            'authenticated and selected states with a bystander connection; '
+            'generated messages (raw, line grammar, MIME grammar, adversarial '
+            'header values) are APPENDed on dict and maildir and read with 37 '
+            'FETCH items and 41 SEARCH programs; the ManageSieve listener gets '
+            'its own grammar. Oracle: a completion (or continuation, or BYE '
+            'then close) for the line, never [SERVERBUG], the connection task '
+            'never dies, never closes without BYE, the bystander is served, '
+            'the connection stays responsive, and no case exceeds the CPU '
+            'budget twice (10 s, confirmed with 60 s). Sampled.',
+            'A budget hit that does not confirm is inconclusive; lines at or '
+            'above the 64 KiB stream limit are outside the quantifier; '
+            'ManageSieve NO "Server error." is not counted.',
+            'DESIGN.md section 3, C06'),
     'C18': ('exploration',
             'Hypothesis-generated spellings: metamorphic sibling comparison '
             '(parser objects and wire responses), parse/serialise/parse round '
